@@ -432,6 +432,10 @@ impl<'a> Machine<'a> {
             syn::Expr::Macro(m) => self.eval_macro(&m.mac),
             syn::Expr::Call(c) => {
                 let f = sm::tsc(&c.func);
+                if f == "Err" && c.args.len() == 1 {
+                    // error values are opaque: their text is kept for the rule to inspect
+                    return Ok(V::Enum(format!("Err({})", sm::tsc(&c.args[0]))));
+                }
                 let mut args = vec![];
                 for a in &c.args {
                     args.push(self.eval(a)?);
